@@ -142,15 +142,28 @@ impl TreeNodeWithPreviousValue {
         // our "target_epoch" may point to some older data. Therefore we may need to load a previous
         // version of this node.
         if self.latest_node.last_epoch > target_epoch {
-            if let Some(previous_node) = &self.previous_node {
-                Ok(previous_node.clone())
-            } else {
-                // no previous, return not found
-                Err(StorageError::NotFound(format!(
-                    "TreeNode {:?} at epoch {}",
+            match &self.previous_node {
+                // The previous node is only the node's state at the target epoch if it has
+                // not been updated after it either
+                Some(previous_node) if previous_node.last_epoch <= target_epoch => {
+                    Ok(previous_node.clone())
+                }
+                // Otherwise the node's state at the target epoch is no longer available (the
+                // reader is more than one epoch behind). This is not the same as the node not
+                // existing at that epoch, so it is not reported as not found.
+                Some(_) => Err(StorageError::Other(format!(
+                    "TreeNode {:?} was updated more than once after epoch {}, its state at that epoch is no longer available",
                     NodeKey(self.label),
                     target_epoch
-                )))
+                ))),
+                None => {
+                    // no previous, return not found
+                    Err(StorageError::NotFound(format!(
+                        "TreeNode {:?} at epoch {}",
+                        NodeKey(self.label),
+                        target_epoch
+                    )))
+                }
             }
         } else {
             // Otherwise the currently targeted epoch just points to the most up-to-date value, retrieve that
